@@ -108,6 +108,21 @@ def run_spec(spec, rep, timeout_s, baseline, findings):
                                   "why": "vacuity guard: no path returns normally under requires"})
     if not work and not rep.undecided:
         rep.undecided.append({"spec": spec.name, "why": "vacuity guard: zero obligations generated"})
+    if any(u.get("spec") == spec.name for u in rep.undecided):
+        # the engine cannot decide this (changed) code: fall back to a bounded run-time check of the contract on the
+        # real function (labelled as such); a failing input is a replayed violation
+        for case in spec.cases():
+            found = random_refute(spec, case, rep.seed, 3000)
+            if found is not None:
+                inputs, failed, out = found
+                full = "%s:%s" % (spec.name, failed[0])
+                v = {"property": rep.prop, "contract": spec.name, "function": "%s:%s" % (spec.file, spec.qualname), "obligation": full,
+                     "inputs": H.jsonable(inputs), "native_outcome": repr(out)[:500], "native_failed_clauses": failed, "status": "runtime",
+                     "found_by": "bounded run-time contract check (3000 random inputs) after the engine was undecided on this code",
+                     "confirmed_on_real_code": True}
+                if not any(finding_matches(f, rep.prop, spec, full, failed, inputs) for f in findings):
+                    rep.violations.append(v)
+                break
     res = H.discharge_all(work)
     for (i, status, solver, tsec, model_vals, detail) in res:
         spec_, case, ci, pi, ob, r = meta[i]
